@@ -132,7 +132,8 @@ static struct {
 	unsigned sample_mod;	/* keep run hashes with hash % sample_mod == 0 */
 	bool trace;
 	double max_wall;	/* safety net only */
-} cfg = { .prop = "C00", .workers = 1, .sample_mod = 1, .replay_dir = "." };
+	const char *variant;	/* library build variant ("" or "ndebug"), recorded in replay files */
+} cfg = { .variant = "", .prop = "C00", .workers = 1, .sample_mod = 1, .replay_dir = "." };
 
 const char *sim_prop(void) { return cfg.prop; }
 bool sim_prop_is(const char *p) { return 0 == strcmp(cfg.prop, p); }
@@ -1266,7 +1267,7 @@ static void write_replay_file(const char *path, const tape_t *t, uint64_t index,
 	tb_printf(&b, "{\n \"format\": \"librfn-sim-replay-1\",\n");
 	tb_printf(&b, " \"property\": \"%s\",\n \"harness\": \"%s\",\n \"flavour\": \"%s\",\n",
 		  cfg.prop, sim_harness.name, sim_harness.flavour);
-	tb_printf(&b, " \"tier\": \"%s\",\n", cfg.thorough ? "thorough" : "quick");
+	tb_printf(&b, " \"tier\": \"%s\",\n \"variant\": \"%s\",\n", cfg.thorough ? "thorough" : "quick", cfg.variant);
 	tb_printf(&b, " \"seed\": %llu,\n \"index\": %llu,\n", (unsigned long long)cfg.seed,
 		  (unsigned long long)index);
 	tb_printf(&b, " \"class\": ");
@@ -1885,6 +1886,7 @@ int sim_main(int argc, char **argv)
 		else if (!strcmp(a, "--max-wall")) { cfg.max_wall = atof(v); i++; }
 		else if (!strcmp(a, "--index")) { index = strtoull(v, NULL, 10); i++; }
 		else if (!strcmp(a, "--trace")) { cfg.trace = true; }
+		else if (!strcmp(a, "--variant")) { cfg.variant = v; i++; }
 		else if (!strcmp(a, "--dump")) { dump_path = v; i++; }
 		else if (a[0] != '-') { file = a; }
 		else die("unknown option %s", a);
